@@ -138,6 +138,37 @@ theorem name_visible_iff_exists (h : Heap) (v : View) (n : String) :
   · rintro ⟨r, _, _, _, hm, k, ts, hk, hg⟩
     simp [hm, hk, hg]
 
+/-- column level: a column name resolves iff a column of that name is in the current descriptor -/
+theorem column_visible_iff_exists (ts : TableSchema) (c : String) :
+    (colPos ts c).isSome = true ↔ ∃ col ∈ ts.cols, col.name = c := by
+  have aux : ∀ (cols : List Col) (k : Nat), (colIndexAux c cols k).isSome = true ↔ ∃ col ∈ cols, col.name = c := by
+    intro cols
+    induction cols with
+    | nil => intro k; simp [colIndexAux]
+    | cons x xs ih =>
+      intro k
+      unfold colIndexAux
+      by_cases hx : (x.name == c) = true
+      · simp only [hx, if_true, Option.isSome_some, true_iff]
+        exact ⟨x, List.mem_cons_self .., by simpa using hx⟩
+      · have hx' : (x.name == c) = false := by simpa using hx
+        simp only [hx', Bool.false_eq_true, if_false, ih (k + 1), List.mem_cons]
+        constructor
+        · rintro ⟨col, hm, hn⟩; exact ⟨col, Or.inr hm, hn⟩
+        · rintro ⟨col, hm | hm, hn⟩
+          · subst hm; simp [hn] at hx'
+          · exact ⟨col, hm, hn⟩
+  unfold colPos colIndex
+  simp only [Option.isSome_map]
+  exact aux ts.cols 0
+
+/-- a statement naming a column that is not in the descriptor answers `notfound` (no silent alias):
+    e.g. a SELECT with a predicate on a dropped column -/
+theorem select_on_missing_column (cat : Catalog) (c j : Nat) (v : View) (t : String) (ts : TableSchema) (p : Pred)
+    (ht : findTable cat t = some ts) (hc : colIndex ts p.col = none) :
+    planStmt none cat c j v (.sel t (some p)) = ⟨[], .err .notfound⟩ := by
+  simp [planStmt, ht, bindPred, hc]
+
 /-- a DML statement on a name that does not resolve answers `notfound` and changes nothing -/
 theorem dml_on_missing_name (α : Spec.State) (a : Db.Spec.ATxn) (s : Stmt)
     (h : resolve α.heap a.view (Stmt.table s) = none) : Spec.dml α a s = (a, α.heap, .err .notfound) := by
